@@ -1,5 +1,6 @@
 import GaeaVerif.Sexp
 import GaeaVerif.Model.Modify
+import GaeaVerif.Model.ModifyStmt
 import GaeaVerif.Drv.C01
 /-
   Driver for C05.
@@ -7,6 +8,9 @@ import GaeaVerif.Drv.C01
     m (merge ((STATUS AFFECTED INSERTID)…))               → (status affected insertid)
     m (exec RULE FORM STMT META COND (rows (k o place)…)) → (ok N) | err
     m (route …)                                           → as C01
+    m (stmt RULE KIND META COND|nocond (rows (k o place)…) (refs single|multi N) (tgt NAME)
+            (set (QUAL NAMEHEX VCLASS VIDX)…) (order (col QUAL k|o DESC)|(expr N)…) (limit N|n))
+                                                          → err | (backend-error) | (ok N (t IDX (k o)…)…)
     s <request> <implementation output>                   → property oracle
 -/
 namespace GaeaVerif.Drv.C05
@@ -14,7 +18,11 @@ open GaeaVerif GaeaVerif.Route GaeaVerif.Modify
 
 def parseQual : String → Option Qual
   | "none" => some .none | "table" => some .table | "alias" => some .alias
-  | "unknown" => some .unknown | "baddb" => some .badDb | _ => none
+  | "unknown" => some .unknown | "baddb" => some .badDb
+  -- spellings: db.t.col / T.col name the table, A.col the alias; DB.t.col names no database
+  -- of the router (database names are compared as written)
+  | "dbtable" => some .table | "uptable" => some .table | "upalias" => some .alias
+  | "updb" => some .badDb | _ => none
 
 /-- `ColumnName.Name.L` of a target as written: back-quotes removed, lower-cased -/
 def nameL (s : String) : String :=
@@ -27,6 +35,9 @@ def parseTargets (e : Sexp) : Option (List Target) :=
       | .list [.atom q, n] => do pure { qual := (← parseQual q), name := nameL (← n.asText?) }
       -- the third element names the assigned value; the decision does not depend on it
       | .list [.atom q, n, _] => do pure { qual := (← parseQual q), name := nameL (← n.asText?) }
+      -- … unless it is a value of class `sq`: it holds a sub-query that reads a table
+      | .list [.atom q, n, .atom vc, _] => do
+          pure { qual := (← parseQual q), name := nameL (← n.asText?), sub := vc == "sq" }
       | _ => none
   | _ => none
 
@@ -54,6 +65,10 @@ partial def parseCondN (e : Sexp) (tab : OtherTab) : Option (Cond × OtherTab) :
   | .list [.atom "other", k, l] => do
       let lit ← C01.parseLit l
       pure (.other tab.length, tab ++ [((← k.asNat?), lit.rank)])
+  -- a predicate holding a sub-query: opaque for the router; kinds 100… in `evalOther`
+  | .list [.atom "sub", _, k, l] => do
+      let lit ← C01.parseLit l
+      pure (.other tab.length, tab ++ [(100 + (← k.asNat?), lit.rank)])
   | other => do pure ((← C01.parseCond other), tab)
 
 /-- truth value of the opaque predicate forms of harness/props/c01.go (`c01Other`)
@@ -74,6 +89,10 @@ def evalOther (kind : Nat) (l : Option Int) (k o : Int) : Option Bool :=
   | 13, _ => some true
   | 14, _ => some false
   | 15, some v => some (k == v)
+  -- sub-queries without FROM clause (harness/props/c05stmt.go `c05Subs`)
+  | 100, some v => some (k == v)
+  | 101, some v => some (decide (v ≤ k))
+  | 102, some v => some (k == v)
   | _, _ => none
 
 def rowEnv (tab : OtherTab) (k o : Int) : Cond → Option Bool
@@ -105,6 +124,209 @@ def parseRows (e : Sexp) : Option (List (Int × Int × Int)) :=
 def mkTables (tab : OtherTab) (rows : List (Int × Int × Int)) : Int → List Row :=
   fun i => (rows.filter fun (_, _, p) => p == i).map fun (k, o, _) => { key := k, env := rowEnv tab k o }
 
+/-! ### whole statements -/
+
+partial def collectSubs (e : Sexp) : List SubKind :=
+  match e with
+  | .list [.atom "sub", .atom cls, _, _] =>
+    [match cls with | "value" => .value | "insel" => .inSel | _ => .table]
+  | .list (.atom "lit" :: _) => []
+  | .list es => es.flatMap collectSubs
+  | _ => []
+
+structure OrdKey where
+  onKey : Bool
+  desc : Bool
+
+def parseOrder (e : Sexp) : Option (List OrdItem × List OrdKey) :=
+  match e with
+  | .list (.atom "order" :: its) => do
+      let ps ← its.mapM fun it =>
+        match it with
+        | .list [.atom "col", .atom q, .atom c, d] => do
+            pure (OrdItem.col (← parseQual q), some ({ onKey := c == "k", desc := (← d.asBool?) } : OrdKey))
+        | .list [.atom "expr", _] => pure (OrdItem.expr, none)
+        | _ => none
+      pure (ps.map (·.1), ps.filterMap (·.2))
+  | _ => none
+
+/-- `a` sorts strictly before `b` -/
+def ordLess (ks : List OrdKey) (a b : Row) : Bool :=
+  match ks with
+  | [] => false
+  | k :: ks =>
+    let x := if k.onKey then a.key else a.o
+    let y := if k.onKey then b.key else b.o
+    if x != y then (decide (x < y)) != k.desc else ordLess ks a b
+
+def ordLe (ks : List OrdKey) (a b : Row) : Bool := !ordLess ks b a
+
+/-- the value assigned to `o` (harness/props/c05stmt.go `c05SetVals`) -/
+def setVal (vc : String) (vi : Nat) (k o : Int) : Int :=
+  match vc, vi % 4 with
+  | "sv", _ => -9
+  | _, 0 => -7
+  | _, 1 => o + 1
+  | _, 2 => -7 - k
+  | _, _ => -o - 5
+
+/-- the assignment to column `o` of a SET list, if any -/
+def findSetO (e : Sexp) : Option (String × Nat) :=
+  match e with
+  | .list (.atom "set" :: as) =>
+    as.findSome? fun a =>
+      match a with
+      | .list [_, n, .atom vc, vi] =>
+        if (n.asText?.map nameL) == some "o" then vi.asNat?.map fun i => (vc, i) else none
+      | _ => none
+  | _ => none
+
+structure StmtReq where
+  rule : Rule
+  st : Stmt
+  tab : OtherTab
+  rows : List (Int × Int × Int)
+  keys : List OrdKey
+  foreign : Bool
+  setO : Option (String × Nat)
+
+def parseStmt (req : Sexp) : Option StmtReq :=
+  match req with
+  | .list [.atom "stmt", _, .atom kind, mt, cond, rows, .list [.atom "refs", .atom shape, _],
+           .list [.atom "tgt", .atom tgt], set, order, .list [.atom "limit", lim]] => do
+    let r ← C01.parseRule mt
+    let (c, tab) ← match cond with
+      | .atom "nocond" => some (none, [])
+      | e => (parseCondN e []).map fun (c, tab) => (some c, tab)
+    let rows ← parseRows rows
+    let ts ← match set with
+      | .list (.atom "set" :: as) => parseTargets (.list as)
+      | _ => none
+    let (items, keys) ← parseOrder order
+    let limit ← match lim with
+      | .atom "n" => some none
+      | e => e.asNat?.map some
+    pure { rule := r
+           st := { isUpdate := kind == "update", multi := shape == "multi", set := ts, cond := c,
+                   subs := collectSubs cond, order := items, limit := limit }
+           tab := tab, rows := rows, keys := keys, foreign := tgt.startsWith "foreign", setO := findSetO set }
+  | _ => none
+
+/-- rows with their position in the input as id -/
+def mkTablesId (tab : OtherTab) (rows : List (Int × Int × Int)) : Int → List Row :=
+  let numbered := rows.zipIdx
+  fun i => (numbered.filter fun ((_, _, p), _) => p == i).map fun ((k, o, _), n) =>
+    { key := k, env := rowEnv tab k o, id := n, o := o }
+
+def StmtReq.upd (q : StmtReq) (row : Row) : Row :=
+  match q.setO with
+  | none => row
+  | some (vc, vi) =>
+    let o' := setVal vc vi row.key row.o
+    { row with o := o', env := rowEnv q.tab row.key o' }
+
+def fmtTable (i : Int) (rows : List Row) : String :=
+  "(t " ++ toString i ++ String.join (rows.map fun row => s!" ({row.key} {row.o})") ++ ")"
+
+def modelStmt (q : StmtReq) : String :=
+  match planModify q.rule "k" q.st with
+  | .error _ => "err"
+  | .ok routed =>
+    if backendRejects q.foreign routed then "(backend-error)" else
+    let tbl := mkTablesId q.tab q.rows
+    let le := ordLe q.keys
+    let n := proxyCount q.st.cond le q.st.limit tbl routed
+    let after := q.rule.idxs.map fun i =>
+      fmtTable i (proxyAfter q.st.isUpdate q.upd q.st.cond le q.st.limit tbl routed i)
+    s!"(ok {n}" ++ String.join (after.map (" " ++ ·)) ++ ")"
+
+/-- rows of `orig` missing from its subsequence `after` -/
+def diffDel : List Row → List (Int × Int) → Option (List Row)
+  | [], [] => some []
+  | [], _ :: _ => none
+  | x :: xs, [] => (diffDel xs []).map (x :: ·)
+  | x :: xs, (k, o) :: ys =>
+    if x.key == k && x.o == o then diffDel xs ys
+    else (diffDel xs ((k, o) :: ys)).map (x :: ·)
+
+/-- rows of `orig` whose `o` differs in `after`; `none`: not the same rows -/
+def diffUpd (val : Row → Int) : List Row → List (Int × Int) → Except String (List Row)
+  | [], [] => .ok []
+  | x :: xs, (k, o) :: ys =>
+    if x.key != k then .error "shard-key-changed"
+    else if x.o == o then diffUpd val xs ys
+    else if val x != o then .error "unexpected-new-value"
+    else (diffUpd val xs ys).map (x :: ·)
+  | _, _ => .error "unexpected-table-contents"
+
+def parseAfter (tabs : List Sexp) : Option (List (Int × List (Int × Int))) :=
+  tabs.mapM fun t =>
+    match t with
+    | .list (.atom "t" :: i :: rs) => do
+        let rs ← rs.mapM fun r => match r with
+          | .list [k, o] => do pure ((← k.asInt?), (← o.asInt?))
+          | _ => none
+        pure ((← i.asInt?), rs)
+    | _ => none
+
+/-- The property on an observed result: what a single database holding every sub table may do
+    with the client's statement.  LIMIT without ORDER BY leaves the choice of rows open, ORDER BY
+    with LIMIT the choice among ties. -/
+def oracleStmt (q : StmtReq) (out : Sexp) : String :=
+  match out with
+  | .atom "err" => "ok"
+  | .atom "panic" => "viol planner-panic"
+  | .list [.atom "not-a-shard-plan"] => "viol sharded-statement-not-planned-as-sharded"
+  | .list [.atom "backend-error"] =>
+    -- a single database rejects a target list naming no table of the FROM clause as well
+    if q.foreign then "ok"
+    else if q.st.subs.any (· == .table) || q.st.set.any (·.sub) then "viol table-subquery-sent-to-backends"
+    else if q.st.multi then "viol multi-table-statement-sent-to-backends"
+    else "viol backends-rejected-rewritten-statement"
+  | .list (.atom "ok" :: n :: tabs) =>
+    match parseAfter tabs with
+    | none => "viol unexpected-output"
+    | some after =>
+      let tbl := mkTablesId q.tab q.rows
+      let val := fun (row : Row) => (q.upd row).o
+      -- the rows changed, sub table by sub table
+      let diffs : Except String (List (List Row)) := q.rule.idxs.mapM fun i =>
+        match after.lookup i with
+        | none => .error "unexpected-table-contents"
+        | some rs =>
+          if q.st.isUpdate then diffUpd val (tbl i) rs
+          else match diffDel (tbl i) rs with
+            | some d => .ok d
+            | none => .error "unexpected-table-contents"
+      match diffs with
+      | .error cls => "viol " ++ cls
+      | .ok ds =>
+        if q.st.multi then "viol multi-table-statement-sent-to-backends" else
+        if (q.st.cond.isSome && q.st.subs.any (· == .table)) || (q.st.isUpdate && q.st.set.any (·.sub)) then
+          "viol table-subquery-sent-to-backends" else
+        if q.st.isUpdate && q.setO.isNone then
+          (if n.asNat?.isSome then "ok" else "viol unexpected-output") else
+        let s := ds.flatten
+        -- a single database rejects a target list that names no table of the FROM clause
+        if q.foreign && !s.isEmpty then "viol delete-with-foreign-target-list-executed" else
+        let all := q.rule.idxs.flatMap tbl
+        let m := all.filter (selects q.st.cond)
+        let want := match q.st.limit with | none => m.length | some l => min l m.length
+        if s.any (fun row => !selects q.st.cond row) then "viol non-matching-row-changed"
+        else if s.length != want then
+          if q.st.limit.isSome && q.st.order.isEmpty && s.length > want
+              && (ds.filter (!·.isEmpty)).length > 1 then "viol limit-applied-per-sub-table"
+          else if s.length < want then "viol matching-row-not-changed"
+          else "viol more-rows-changed-than-limit"
+        else
+          let ids := s.map (·.id)
+          let rest := m.filter fun row => !ids.contains row.id
+          if q.st.limit.isSome && s.any (fun x => rest.any fun u => ordLess q.keys u x) then
+            "viol order-by-limit-picked-wrong-rows"
+          else if n.asNat? != some s.length then "viol affected-rows-differ-from-single-database"
+          else "ok"
+  | _ => "viol unexpected-output"
+
 def model (req : Sexp) : String :=
   match req with
   | .list [.atom "assign", .atom kind, ts] =>
@@ -128,6 +350,10 @@ def model (req : Sexp) : String :=
       | none => "err"
       | some routed => s!"(ok {proxyAffected c (mkTables tab rows) routed})"
     | _, _, _ => "bad-input"
+  | .list (.atom "stmt" :: _) =>
+    match parseStmt req with
+    | some q => modelStmt q
+    | none => "bad-input"
   | _ => "bad-request"
 
 def oracle (req out : Sexp) : String :=
@@ -160,6 +386,10 @@ def oracle (req out : Sexp) : String :=
       | .list [.atom "not-a-shard-plan"] => "viol sharded-statement-not-planned-as-sharded"
       | _ => "viol unexpected-output"
     | _, _, _ => "bad-input"
+  | .list (.atom "stmt" :: _) =>
+    match parseStmt req with
+    | some q => oracleStmt q out
+    | none => "bad-input"
   | _ => "bad-request"
 
 def handle (args : List Sexp) : String :=
